@@ -259,7 +259,7 @@ def runConv (m : Mem) (h : HV) : Conv → Option HV
   | .unionSecond => if h.kind = .arc ∧ h.ty = .sizedB then some (ArcUnion.from_second m h) else none
   | .eraseHeader => if h.kind = .arc ∧ h.ty = .uslice then some (Arc.erase_header h) else none
   | .addHeader => if h.kind = .arc ∧ h.ty = .slice then some (Arc.add_unit_header h) else none
-  | .shareable => if h.kind = .uniq then some (UniqueArc.shareable h) else none
+  | .shareable => if h.kind = .uniq ∧ h.ty ≠ .hsMu then some (UniqueArc.shareable h) else none
   | .assumeInit =>
       -- unsafe contract: every slot written (the generator and the harness both enforce it)
       if (h.kind = .arc ∨ h.kind = .uniq) ∧ allWritten m h then
@@ -427,6 +427,12 @@ def Arc.make_mut (m : Mem) (a : HV) (clonePanics : Bool) : Mem × Option HV :=
     (m, some fresh)
 
 /-- drop every handle in the table; raw pointers are first taken back (`from_raw`) -/
+def insertSlot (e : Nat × HV) : List (Nat × HV) → List (Nat × HV)
+  | [] => [e]
+  | x :: r => if e.1 ≤ x.1 then e :: x :: r else x :: insertSlot e r
+/-- the slot table in slot-number order (the order in which `dropAll` releases) -/
+def sortedSlots (l : List (Nat × HV)) : List (Nat × HV) := l.foldr insertSlot []
+
 def dropAllSlots : List (Nat × HV) → Mem → Mem
   | [], m => m
   | (_, h) :: r, m =>
@@ -572,7 +578,7 @@ def step (s : State) : Op → State × Out
   | .tryUnique src =>
     match lookup s src with
     | some h =>
-      if h.kind = .arc then
+      if h.kind = .arc ∧ (h.ty = .sized ∨ h.ty = .slice ∨ h.ty = .hs ∨ h.ty = .mu ∨ h.ty = .muSlice) then
         match Arc.try_unique s.mem h with
         | .ok u => (s.set s.mem src u, ok "ok")
         | .error _ => (s, ok "err")
@@ -588,7 +594,10 @@ def step (s : State) : Op → State × Out
       if (h.ty = .mu ∨ h.ty = .muSlice ∨ h.ty = .hsMu) ∧ i < viewLen s.mem h ∧ (h.kind = .uniq ∨ (h.kind = .arc ∧ h.ty ≠ .hsMu)) then
         -- UniqueArc: DerefMut / `write`; Arc: the deprecated `write` / `as_mut_slice`, which go
         -- through `must_be_unique` and panic when the handle is shared
-        if h.kind = .arc ∧ !Arc.is_unique s.mem h then (s, panicked "not-unique")
+        if h.kind = .arc ∧ !Arc.is_unique s.mem h then
+          -- `a.write(v)`: the argument exists already and is dropped by unwinding;
+          -- `a.as_mut_slice()[i].write(v)`: the panic comes before `v` is even constructed
+          (⟨if h.ty = .mu then s.mem.emit [.drop v.id] else s.mem, s.slots⟩, panicked "not-unique")
         else (⟨s.mem.upd h.blk fun k => { k with elems := k.elems.set i (some v) }, s.slots⟩, ok)
       else (s, badOp)
     | none => (s, badOp)
@@ -599,7 +608,7 @@ def step (s : State) : Op → State × Out
       | some t => runCb api src script s t ""
       | none => (s, badOp)
     | none => (s, badOp)
-  | .dropAll => (⟨dropAllSlots s.slots s.mem, []⟩, ok)
+  | .dropAll => (⟨dropAllSlots (sortedSlots s.slots) s.mem, []⟩, ok)
 
 def run (ops : List Op) : State := ops.foldl (fun s o => (step s o).1) State.init
 
